@@ -69,15 +69,31 @@ def gen_case(rng, idx, tier):
     }
 
 
-def render_variant(case, seed):
+def respell(r, p, root):
+    k = r.random()
+    if k < 0.6 or root is None:
+        return gen.leaf_expr(p)
+    if k < 0.7:
+        return gen.leaf_expr("./" + p)
+    if k < 0.8:
+        return gen.leaf_expr("zz/../" + p)
+    if k < 0.9:
+        return gen.leaf_expr(root + "/" + p)
+    if k < 0.95:
+        return gen.leaf_expr(root + "/./" + p)
+    return gen.leaf_expr(p, as_path=True)
+
+
+def render_variant(case, seed, root=None):
+    """same declared file sets, different grouping AND different spelling of every path"""
     r = random.Random(seed)
     out = []
     for t in case["dag"]["targets"]:
         out.append(
             {
                 "name": t["name"],
-                "ins_expr": gen.shape_expr(r, [gen.leaf_expr(p) for p in t["ins"]]),
-                "outs_expr": gen.shape_expr(r, [gen.leaf_expr(p) for p in t["outs"]]),
+                "ins_expr": gen.shape_expr(r, [respell(r, p, root) for p in t["ins"]]),
+                "outs_expr": gen.shape_expr(r, [respell(r, p, root) for p in t["outs"]]),
                 "spec": t["spec"],
             }
         )
@@ -167,7 +183,7 @@ def run_lib(case, proj, st, res):
     from .. import inproc
 
     for vi, seed in enumerate(case["shape_seeds"]):
-        variant = render_variant(case, seed)
+        variant = render_variant(case, seed, proj.root)
         materialise(case, proj, variant)
         try:
             wf = inproc.build_workflow(proj.root, variant)
@@ -193,7 +209,7 @@ def run_lib(case, proj, st, res):
 
 
 def run_cli(case, proj, st, res):
-    variant = render_variant(case, case["shape_seeds"][0])
+    variant = render_variant(case, case["shape_seeds"][0], proj.root)
     materialise(case, proj, variant)
     sim = SimCluster(proj.simdir, "slurm")
     tracked = {}
